@@ -7,10 +7,12 @@ Nothing from the repository is imported or executed.
 from __future__ import annotations
 
 import ast
+import os
 import re
 from dataclasses import dataclass, field
 from pathlib import Path
 
+from .normalize import normalise_module
 from .report import SRC, AnalysisError, norm
 
 PKG = "basictdf"
@@ -213,6 +215,7 @@ class Program:
     def __init__(self, src: Path = SRC):
         self.src = Path(src)
         self.modules: dict[str, ModuleInfo] = {}
+        self.normalised: dict[str, dict] = {}
         files = sorted(self.src.glob("*.py"))
         if not files:
             raise AnalysisError(f"no python sources under {self.src}")
@@ -222,6 +225,11 @@ class Program:
                 tree = ast.parse(text, filename=str(p))
             except SyntaxError as e:
                 raise AnalysisError(f"{p.name} does not parse: {e}")
+            if not os.environ.get("SA_NO_NORMALISE"):
+                try:
+                    self.normalised[p.stem] = normalise_module(tree)
+                except RecursionError as e:  # pragma: no cover
+                    raise AnalysisError(f"{p.name}: normalisation failed: {e}")
             m = ModuleInfo(p.stem, p, tree, text)
             self._index_module(m)
             self.modules[m.name] = m
